@@ -23,7 +23,7 @@ RULE = ("all 5 host message types and 4 return message types x boundary-biased f
         "least one payload field; distinct = distinct case description.")
 ASSUMPTIONS = ["field values are inside the declared widths (out-of-range values are C16's subject)",
                "type bytes: host INIT=0 OPEN_EPR=1 SUBROUTINE=2 STOP=3 SIGNAL=4; return DONE=0 ERR=1 RET_ARR=2 RET_REG=3"]
-SHARDS = {"quick": 1, "thorough": 4}
+SHARDS = {"quick": 1, "thorough": 16}
 MIN_COUNTERS = {"undefined_entries_checked": 100, "messages_roundtripped": 500}
 
 U32 = [0, 1, 2, 255, 256, 65535, 65536, 2**31 - 1, 2**31, 2**32 - 2, 2**32 - 1] + [1 << b for b in range(32)]
@@ -54,7 +54,7 @@ def cases(ctx):
             yield {"kind": "stop", "app_id": a}
         if mine():
             yield {"kind": "done", "msg_id": a}
-    n = ctx.n(400, 20000)
+    n = ctx.n(400, 200000)
     for _ in range(n):
         yield {"kind": "open_epr", "app_id": pick(rng, U32), "epr_socket_id": pick(rng, I32),
                "remote_node_id": pick(rng, I32), "remote_epr_socket_id": pick(rng, I32),
@@ -79,7 +79,7 @@ def cases(ctx):
             if mine():
                 vals = [None if p else rng.choice(I32) for p in pat]
                 yield {"kind": "ret_arr", "address": pick(rng, I32), "values": vals}
-    for _ in range(ctx.n(300, 8000)):
+    for _ in range(ctx.n(300, 80000)):
         ln = rng.choice([7, 8, 10, 16, 31, 32, 33, 64, 100, 255, 256, 257, 300]) if rng.random() < 0.5 else rng.randrange(7, 301)
         p_none = rng.choice([0.0, 0.1, 0.5, 0.9, 1.0])
         vals = [None if rng.random() < p_none else (rng.choice(I32) if rng.random() < 0.5 else rng.randint(-(2**31), 2**31 - 1))
@@ -93,7 +93,7 @@ def cases(ctx):
     for ln in (4, 64):
         if mine():
             yield {"kind": "threaded", "threads": 4, "length": ln, "rounds": 1500 if ctx.quick else 20000}
-    for _ in range(ctx.n(200, 5000)):
+    for _ in range(ctx.n(200, 50000)):
         flav = rng.choice(["vanilla", "nv", "reids"])
         names = sorted(isa.TABLE[flav])
         ins = []
